@@ -411,7 +411,7 @@ impl Sys {
             let inv = st.invoices.get(&ph(h)).map(|p| format!("Some {}", p.amount_msat)).unwrap_or("None".into());
             let (known, cells) = match st.payments.get(&ph(h)) {
                 Some(p) => (
-                    true,
+                    format!("({}, {})", coq_bool(true), coq_bool(p.preimage.is_some())),
                     self.chans
                         .iter()
                         .map(|c| {
@@ -423,9 +423,9 @@ impl Sys {
                         })
                         .collect::<Vec<_>>(),
                 ),
-                None => (false, self.chans.iter().map(|_| "(0, 0)".to_string()).collect()),
+                None => ("(false, false)".to_string(), self.chans.iter().map(|_| "(0, 0)".to_string()).collect()),
             };
-            rows.push(format!("({}, {}, {})", inv, coq_bool(known), coq_list(&cells)));
+            rows.push(format!("({}, {}, {})", inv, known, coq_list(&cells)));
         }
         coq_list(&rows)
     }
